@@ -54,7 +54,9 @@ ASSUMPTIONS = [
     "the exhaustive stream enumerates every labelled digraph without self-successors on <= 3 (quick) / <= 4 (thorough) nodes",
 ]
 TRUSTED = ["C20: termination of the real route functions is observed through a call budget on LaneletNetwork.find_lanelet_by_id "
-           "(a counting subclass) derived from the number of simple paths of the graph, plus a 30 s wall-clock alarm"]
+           "(a counting subclass) derived from the number of simple paths of the graph, plus a 30 s wall-clock alarm; the mergechain runner "
+           "(all_lanelets_by_merging_*) has the same watchdog with a budget derived from the model's answer",
+           "C20 translator tie: harness/translate/src_c20.py (py -> Lean, regenerated every run) and the call table CRModel/PyExtC20.lean"]
 REQUIRED_BUCKETS = ["poly", "poly3d", "poly/s=0", "poly/s=length", "poly/s=vertex", "poly/s=interior", "poly/s=out-of-range",
                     "poly/repeated-vertex", "polyfloat", "merge/joined-exact", "merge/left-boundary-repeats-vertex",
                     "merge/right-boundary-repeats-vertex", "merge/pred-boundary-repeats-vertex", "merge/suc-boundary-repeats-vertex",
@@ -84,6 +86,7 @@ REQUIRED_BUCKETS += ["net/edit-" + e for e in ("add_successor", "remove_successo
                                                "predecessor_inplace_remove", "remove_lanelet", "add_lanelet_late",
                                                "add_existing_successor")]
 WORKERS = {"quick": 1, "thorough": 8}
+EXTRA_MODULES = ["CRProps.T20"]      # translator tie: Gen.SrcC20 (regenerated from the working tree every run) = hand model
 
 DIRS = [(3, 4, 5), (4, 3, 5), (5, 12, 13), (12, 5, 13), (8, 15, 17), (15, 8, 17), (7, 24, 25), (20, 21, 29), (1, 0, 1), (0, 1, 1)]
 TOL = 1e-9
@@ -1815,6 +1818,7 @@ def run_mergechain(ctx, case):
     for nd in nodes:      # the link lists as the network holds them now (cleanup_ids re-orders them)
         lds[nd["id"]] = dict(lds[nd["id"]], succ=nd["succ"], pred=nd["pred"])
     partlen = {d["id"]: float(net.find_lanelet_by_id(d["id"]).distance[-1]) for d in case["lanelets"]}
+    watchdog = install_counter(net)
     for q in case["queries"]:
         st, mx = q["start"], F(q["max"])
         start_lan = net.find_lanelet_by_id(st)
@@ -1823,11 +1827,34 @@ def run_mergechain(ctx, case):
                               ("predecessors", Lanelet.all_lanelets_by_merging_predecessors_from_lanelet, routes[1])):
             sub = {"kind": "mergechain", "shape": case["shape"], "lanelets": case["lanelets"], "queries": [q], "via": via}
             key = f"C20/all_lanelets_by_merging_{which}_from_lanelet"
-            if q.get("type") == "default" and mx == 150:
-                ctx.tag("mergechain/range-default-arg")
-                res = call(fn, start_lan, net)
-            else:
-                res = call(fn, start_lan, net, float(mx))
+            # termination watchdog (as in observe_routes): a correct run looks up one link list and at most `deg` lengths per chain
+            # element of the model's answer, plus one lookup per element for the merge jobs; 5x that (+ slack) is generous
+            chain_elems = sum(len(p_) + 1 for p_ in rt["ok"]) if isinstance(rt, dict) and "ok" in rt else len(nodes) ** 2
+            deg = max([len(nd["succ"]) + len(nd["pred"]) for nd in nodes] + [1])
+            watchdog["calls"] = 0
+            watchdog["budget"] = 5 * (chain_elems + len(nodes) + 1) * (deg + 2) + 200
+            old_handler = signal.signal(signal.SIGALRM, _on_alarm)
+            signal.setitimer(signal.ITIMER_REAL, 30.0)
+            try:
+                if q.get("type") == "default" and mx == 150:
+                    ctx.tag("mergechain/range-default-arg")
+                    res = ("ok", fn(start_lan, net))
+                else:
+                    res = ("ok", fn(start_lan, net, float(mx)))
+            except (Budget, _Alarm):
+                res = ("nontermination",)
+            except Exception as e:  # noqa  (same convention as common.call)
+                from common import err_class
+                res = ("err", err_class(e), f"{type(e).__name__}: {e}")
+            finally:
+                signal.setitimer(signal.ITIMER_REAL, 0)
+                signal.signal(signal.SIGALRM, old_handler)
+                watchdog["budget"] = 10 ** 9
+            if res[0] == "nontermination":
+                ctx.fail(f"{key}/does-not-terminate",
+                         f"start {st}, max_length {float(mx)}: more than {5 * (chain_elems + len(nodes) + 1) * (deg + 2) + 200} network "
+                         f"lookups (the model's answer has {chain_elems} chain elements) or 30 s", sub)
+                continue
             nbrs = lds[st]["succ"] if which == "successors" else lds[st]["pred"]
             want_jobs = [[st] + p for p in rt["ok"]] if nbrs else [[st]]
             if res[0] == "err":
